@@ -77,6 +77,8 @@ partial def loop (j : Judge) (h : IO.FS.Stream) (out : IO.FS.Stream) (st : j.σ)
   if line.isEmpty || line.startsWith "#" then
     loop j h out st acc (lineNo + 1)
   else if line == "reset" then
+    -- progress marker for the runner's watchdog (stderr, unbuffered): which scenario the judge is working on
+    IO.eprintln s!"@ {lineNo}"
     loop j h out j.init acc (lineNo + 1)
   else
     let (toks, impl) := splitLine line
